@@ -247,6 +247,27 @@ Section Save.
   Qed.
 End Save.
 
+(* the mode of the config file never depends on the file that was there: after
+   the save it is 0600, and at every crash cut the path either still holds the
+   old file (data and mode untouched) or holds a file of mode 0600 *)
+Lemma mode_owner_only (dir p t : path) (chunks : list str) :
+  t <> p -> forall s,
+  fget t s = None ->
+  (forall f, fget p (exec_all s (save_steps dir p t chunks)) = Some f -> f_mode f = mode_file) /\
+  (exists f, fget p (exec_all s (save_steps dir p t chunks)) = Some f) /\
+  (forall pre f, crash_cut (save_steps dir p t chunks) pre ->
+                 fget p (exec_all s pre) = Some f -> fget p (exec_all s pre) <> fget p s -> f_mode f = mode_file).
+Proof.
+  intros NE s FR. destruct (save_complete dir p t chunks NE s FR) as (P & _ & _).
+  split; [|split].
+  - intros f E. rewrite P in E. injection E as <-. reflexivity.
+  - eexists. exact P.
+  - intros pre f C E D.
+    destruct (save_atomic dir p t chunks NE s pre FR C) as ([OLD|NEW] & _ & _).
+    + contradiction.
+    + rewrite NEW in E. injection E as <-. reflexivity.
+Qed.
+
 (* ---------- one store operation, crash at any point ---------- *)
 From Oras Require Import Generated.GC18 Model.CredFile.
 
